@@ -168,7 +168,21 @@ def run(ctx):
                 ctx.violation('c05-classifier-machine-disagrees', f'classifier result differs from the model: {lean[:300]}', replay=rep, found_input=False)
 
 
+_run_core = run
+
+
+def run(ctx):
+    _run_core(ctx)
+    if ctx.n_new() == 0 and ctx.driver_ok:
+        from harness.common import run_demo
+        run_demo(ctx, 'demo_learnterm.py', ['--n', 150 if ctx.tier == 'quick' else 2000, '--seed', ctx.seed], 'c05-loop-vs-queue-machine',
+                 'the real learn_spn loop against the Lean queue machine (halts within the proved bound B, iteration count = runCount, same structure)', env_extra=None)
+
+
 def replay(rep):
+    if rep['replay'].get('kind') == 'demo':
+        from harness.common import replay_demo
+        return replay_demo(rep['replay'])
     r = rep['replay']
     if r['kind'] != 'c05':
         print('classifier case: re-run the check')
